@@ -22,7 +22,7 @@ Seeds == <<
      Pol1(<<Stmt("st1", {}, {Act("ext", "remove", 0, 0, {"rt:65001:100"}, "")}, "accept")>>),
      Asg("import", "accept"), Asg("export", "accept"),
      Ev(Rt(Px, "C", "192.0.2.1", <<65002>>, <<>>, <<ExtLB, "rt:65002:200">>, <<>>, "valid"), "import", "C", "export", "A")>>],
-  \* KF-C10-extset-remove-subtype
+  \* FX-C10-extset-remove-subtype (repaired in /repo by 8b8068e: kept as a regression seed, strict)
   [name |-> "extset-remove-subtype", steps |-> <<
      AddSet("ext", "es1", {"rt:65001:100", "soo:65001:100"}),
      [op |-> "DelSet", kind |-> "ext", name |-> "es1", members |-> {"soo:65001:100"}, all |-> FALSE],
